@@ -183,7 +183,7 @@ class Session(object):
 
 # ------------------------------------------------------------------ transcript parsing
 
-CMD_RE = re.compile(r'^(\d+) *\| (.*?):(\d+):(\d+) +(\S.*)$')
+CMD_RE = re.compile(r'^ *(\d+) *\| *(.*?):(\d+):(\d+) +(\S.*?) *$')
 HELP_PREFIXES = ('[b] break', 'exit  ', '[h] help', '[n] next', '[s] state', '[p] previous', '[r] run')
 
 
